@@ -103,16 +103,16 @@ func parseReadme() []route {
 var allSets = []string{"READ", "STATUS", "TXN", "WALLET", "NET_CTRL", "INSECURE_WALLET_SEED", "STORAGE"}
 
 type apiNode struct {
-	c       *sim.Ctx
-	w       *world
-	ns      *netSim
-	n       *netNode
-	wallets *wallet.Service
-	kv      *kvstorage.Manager
-	h       http.Handler
-	cfg     api.Config
+	c           *sim.Ctx
+	w           *world
+	ns          *netSim
+	n           *netNode
+	wallets     *wallet.Service
+	kv          *kvstorage.Manager
+	h           http.Handler
+	cfg         api.Config
 	walletNames []string
-	chain   []model.Block
+	chain       []model.Block
 }
 
 func newAPINode(c *sim.Ctx, cfg api.Config, blocks int) *apiNode {
@@ -175,9 +175,9 @@ func (a *apiNode) close() {
 
 type apiReq struct {
 	method, uri, query, body, ctype string
-	host, origin, referer, token     string
-	user, pass                       string
-	hasAuth                          bool
+	host, origin, referer, token    string
+	user, pass                      string
+	hasAuth                         bool
 }
 
 type apiResp struct {
